@@ -140,7 +140,7 @@ def schedules(quick):
         steps = []
         k = r.randint(2, 6)
         for j in range(k):
-            kind = r.choices(["model", "invalid", "lib", "manifest-drop", "manifest-restore"], [6, 2, 1, 1, 1])[0]
+            kind = r.choices(["model", "invalid", "lib", "manifest-drop", "manifest-restore", "add-file", "delete-file"], [6, 2, 1, 1, 1, 1, 1])[0]
             steps.append((r.choice(gaps), kind, 10 * i + j + 1, r.choice(["inplace", "rename"])))
         last_model_save = [st[1] for st in steps if st[1] in ("model", "invalid")]
         if last_model_save and last_model_save[-1] == "invalid":      # the final contents must be valid: what an invalid final state should produce is not stated
@@ -157,6 +157,10 @@ def schedules(quick):
         ("lib-bad-import-then-fixed", "", [(0, "model", 1, "inplace"), (200, "lib-bad-import", 2, "inplace"), (300, "model", 3, "inplace"), (300, "lib-good-import", 4, "inplace"), (300, "model", 5, "inplace")]),
         ("lib-bad-import-then-fixed-fast", "", [(0, "lib-bad-import", 1, "inplace"), (50, "lib-good-import", 2, "inplace"), (50, "model", 3, "rename")]),
         ("forced-validated2-lib-edit", "regen.validated#2=1200", [(0, "lib", 1, "inplace"), (150, "model", 2, "inplace")]),
+        ("file-added-then-deleted", "", [(0, "add-file", 1, "inplace"), (400, "delete-file", 2, "inplace")]),
+        ("file-added-then-moved-out", "", [(0, "add-file", 1, "rename"), (400, "model", 2, "inplace"), (400, "move-file-out", 3, "inplace")]),
+        ("file-added-edited-deleted-fast", "", [(0, "add-file", 1, "inplace"), (30, "add-file", 2, "inplace"), (30, "delete-file", 3, "inplace")]),
+        ("file-added-kept", "", [(0, "model", 1, "inplace"), (300, "add-file", 2, "inplace")]),
     ]
     out += forced if quick else forced * 1 + [("forced-validated2-gap%d" % g, "regen.validated#2=1200", [(0, "model", 1, "inplace"), (g, "model", 2, "inplace")]) for g in (20, 50, 100, 300, 600, 1100, 1300)]
     return out
@@ -191,7 +195,7 @@ def run(ctx):
                     return verdict
                 raise Inconclusive("%s: initial regeneration did not finish within 30 s wall" % name)
             cur_outputs = ("cpp", "python", "json", "matlab")
-            final_variant, lib_text = 0, LIB
+            final_variant, lib_text, second = 0, LIB, None
             starts_before = w.counts()[0]
             invalid_seen = False
             for gap, kind, v, how in steps:
@@ -212,6 +216,17 @@ def run(ctx):
                     invalid_seen = True
                 elif kind == "lib-good-import":
                     save(os.path.join(root, "lib/_package.yml"), "namespace: Lib\nimports:\n  - ../base\n", how)
+                elif kind == "add-file":
+                    save(os.path.join(root, "main/second.yml"), "SecondFile%d: !record\n  fields:\n    z: int\n" % v, how)
+                    second = "SecondFile%d: !record\n  fields:\n    z: int\n" % v
+                elif kind == "delete-file":
+                    if os.path.exists(os.path.join(root, "main/second.yml")):
+                        os.unlink(os.path.join(root, "main/second.yml"))
+                    second = None
+                elif kind == "move-file-out":
+                    if os.path.exists(os.path.join(root, "main/second.yml")):
+                        os.replace(os.path.join(root, "main/second.yml"), os.path.join(root, "moved_out_%d.yml" % v))
+                    second = None
                 elif kind == "manifest-drop":
                     cur_outputs = ("cpp", "json")
                     save(os.path.join(root, "main/_package.yml"), manifest(cur_outputs), how)
@@ -235,6 +250,8 @@ def run(ctx):
             ref = os.path.join(root, "ref")
             shutil.rmtree(ref, ignore_errors=True)
             write_tree(ref, final_variant, cur_outputs, lib_text)
+            if second is not None:
+                common.write_tree(ref, {"main/second.yml": second})
             p = cli.run_cli("generate", os.path.join(ref, "main"), home)
             if p.rc != 0:
                 raise Inconclusive("%s: reference one-shot generate failed: %s" % (name, cli.clean(p.stderr)[:300]))
